@@ -513,12 +513,37 @@ inline void world::advertising_activity()
         const bool well_formed = rx.size() == 2 + 12 && ( rx[ 1 ] & 0x3f ) == 12;
         const bool addressed = well_formed && std::equal( rx.begin() + 8, rx.begin() + 14, adv.begin() + 2 ) && ( ( rx[ 0 ] & 0x80 ) != 0 ) == adv_tx_random;
         bool in_filter = false;
+        if ( r_.real_front )
+        {
+            // the radio front end decides within the inter frame space; a request it does not answer goes to the link layer like any other PDU
+            const unsigned who = well_formed ? rx[ 2 ] & 0x0f : 0;
+            const bool model_in = !ll_.has_white_list || !wl_scan_filter_ || ( ( rx[ 0 ] & 0x40 ) != 0 && white_list_.count( who ) != 0 );
+            const bool expect = scannable && addressed && model_in;
+            const std::size_t n = std::min< std::size_t >( rx.size(), r_.adv_receive.size );
+            const bool responded = r_.front_adv_reception( rx.data(), n );
+            if ( responded != expect )
+                violate( "C25", "scan-response-decision", responded ? ( !scannable ? "scan-response-decision answered not-scannable" : !addressed ? "scan-response-decision answered not-addressed" : "scan-response-decision answered filtered" ) : "scan-response-decision unanswered",
+                         "scan request (%zu bytes, scannable %d, addressed %d, in white list by the model %d): the radio %s", rx.size(), scannable, addressed, model_in, responded ? "answered" : "did not answer" );
+            if ( responded )
+            {
+                res_.note( "scan response sent" );
+                res_.probe( "scan_response_sent" );
+                const write_buffer& rsp = r_.front_response;
+                r_.now_us += 150 + pdu_duration_us( rsp.size > 2 ? ( rsp.buffer[ 1 ] & 0x3f ) : 0 );
+                if ( rsp.size < 8 || ( rsp.buffer[ 0 ] & 0xf ) != 4 || !std::equal( adv.begin() + 2, adv.begin() + 8, rsp.buffer + 2 ) )
+                    violate( "C25", "scan-response-format", "scan-response-format", "scan response data is no SCAN_RSP of this device" );
+            }
+            if ( r_.pending == radio_state::connection_event )
+                violate( "C25", "connect-decision", "connect-accepted scan-request", "a scan request opened a connection" );
+            snapshot_adv_schedule();
+            return;
+        }
         if ( well_formed ) in_filter = r_.cb_scan_request_in_filter( bluetoe::link_layer::device_address( &rx[ 2 ], ( rx[ 0 ] & 0x40 ) != 0 ) );
         // model of the filter
         if ( well_formed )
         {
             const unsigned who = rx[ 2 ] & 0x0f;
-            const bool model_in = !wl_scan_filter_ || white_list_.count( who ) != 0;
+            const bool model_in = !wl_scan_filter_ || ( ( rx[ 0 ] & 0x40 ) != 0 && white_list_.count( who ) != 0 );     // the white list holds random addresses only
             if ( ll_.has_white_list && in_filter != model_in )
                 violate( "C25", "scan-filter", "scan-filter", "scan request from device #%u: filter says %d, model %d (filter %s)", who, in_filter, model_in, wl_scan_filter_ ? "on" : "off" );
         }
@@ -592,7 +617,7 @@ inline void world::advertising_activity()
 inline bytes world::make_scan_request( const sim::Op& op, const bytes& adv ) const
 {
     // arg0 kind, arg1 scanner id (0..11)
-    const int kind = static_cast< int >( ( ( op.arg( 0 ) % 6 ) + 6 ) % 6 );
+    const int kind = static_cast< int >( ( ( op.arg( 0 ) % 7 ) + 7 ) % 7 );
     const unsigned who = static_cast< unsigned >( ( ( op.arg( 1 ) % 12 ) + 12 ) % 12 );
     bytes p{ 0x03, 12 };
     p[ 0 ] |= 0x40;                                         // scanner uses a random address
@@ -607,6 +632,7 @@ inline bytes world::make_scan_request( const sim::Op& op, const bytes& adv ) con
     case 3: p.push_back( 0 ); p[ 1 ] = 13; break;           // too long
     case 4: p.pop_back(); p[ 1 ] = 11; break;               // too short
     case 5: p[ 0 ] = static_cast< std::uint8_t >( ( p[ 0 ] & 0xf0 ) | 0x00 ); break;   // an ADV_IND of another device
+    case 6: p[ 0 ] &= static_cast< std::uint8_t >( ~0x40 ); break;                     // another device: the same 48 bits as public address
     default: break;
     }
     return p;
@@ -615,7 +641,7 @@ inline bytes world::make_scan_request( const sim::Op& op, const bytes& adv ) con
 inline bytes world::make_connect_request( const sim::Op& op, const bytes& adv, bool& valid, bool& either, central_model& nc ) const
 {
     // a: 0 kind, 1 initiator id, 2 interval (1.25 ms), 3 latency, 4 timeout (10 ms), 5 window size, 6 window offset, 7 hop, 8 channel map seed, 9 sca, 10 jitter permille of the window, 11 md burst
-    const int kind = static_cast< int >( ( ( op.arg( 0 ) % 9 ) + 9 ) % 9 );
+    const int kind = static_cast< int >( ( ( op.arg( 0 ) % 10 ) + 10 ) % 10 );
     const unsigned who = static_cast< unsigned >( ( ( op.arg( 1 ) % 12 ) + 12 ) % 12 );
     std::uint32_t interval = static_cast< std::uint32_t >( 6 + ( ( op.arg( 2 ) % 400 ) + 400 ) % 400 );
     std::uint32_t latency = static_cast< std::uint32_t >( ( ( op.arg( 3 ) % 8 ) + 8 ) % 8 );
@@ -670,18 +696,20 @@ inline bytes world::make_connect_request( const sim::Op& op, const bytes& adv, b
     if ( kind == 1 ) p[ 10 ] ^= 0x04;
     if ( kind == 2 ) p[ 0 ] ^= 0x80;
     if ( kind == 3 ) { if ( who & 1 ) { p.push_back( 0 ); p[ 1 ] = 35; } else { p.pop_back(); p[ 1 ] = 33; } }
+    if ( kind == 9 ) p[ 0 ] &= static_cast< std::uint8_t >( ~0x40 );       // another device: the same 48 bits as public address (never in the white list)
+    const bool init_random = ( p[ 0 ] & 0x40 ) != 0;
     // directed advertising: only the target may connect. The target is the device named in the PDU on the air; when the application named another
     // target after that PDU was scheduled, the property does not say which of the two counts: either decision is accepted for these two devices
     either = false;
     if ( ( adv[ 0 ] & 0xf ) == 1 )
     {
-        const bool is_target = adv.size() >= 14 && std::equal( init, init + 6, adv.begin() + 8 ) && ( ( adv[ 0 ] & 0x80 ) != 0 );
-        const bool is_configured_target = directed_target_ >= 0 && who == static_cast< unsigned >( directed_target_ );
+        const bool is_target = adv.size() >= 14 && std::equal( init, init + 6, adv.begin() + 8 ) && ( ( adv[ 0 ] & 0x80 ) != 0 ) == init_random;
+        const bool is_configured_target = directed_target_ >= 0 && who == static_cast< unsigned >( directed_target_ ) && init_random;
         if ( !is_target && !is_configured_target ) valid = false;
         else if ( is_target != is_configured_target && valid ) either = true;
     }
     if ( ( adv[ 0 ] & 0xf ) == 2 || ( adv[ 0 ] & 0xf ) == 6 ) valid = false;      // not connectable
-    if ( ll_.has_white_list && wl_conn_filter_ && !white_list_.count( who ) ) valid = false;
+    if ( ll_.has_white_list && wl_conn_filter_ && !( init_random && white_list_.count( who ) ) ) valid = false;
     static const unsigned sca_ppm[ 8 ] = { 500, 250, 150, 100, 75, 50, 30, 20 };
     nc = central_model();
     nc.interval_us = interval * 1250; nc.latency = static_cast< std::uint16_t >( latency ); nc.timeout_us = timeout * 10000; std::memcpy( nc.chm, chm, 5 ); nc.hop = hop; nc.sca_ppm = sca_ppm[ sca ];
@@ -932,6 +960,10 @@ inline void world::connection_event_activity()
         {
             // nothing heard
         }
+        else if ( fault == 2 && r_.real_front )
+        {
+            // the nRF52 radio reports a CRC error like no reception at all: no response, the event times out
+        }
         else
         {
             heard = true;
@@ -950,7 +982,9 @@ inline void world::connection_event_activity()
             std::int64_t t = rx_local;
             bool more = true;
             bool first = true;
-            while ( more && packets < c_.md_burst )
+            // (the nRF52 front end answers one PDU per event and clears its own MD flag; a central may close the event whenever it likes)
+            const unsigned burst = r_.real_front ? 1u : c_.md_burst;
+            while ( more && packets < burst )
             {
                 ++packets;
                 if ( !c_.has_inflight )
@@ -959,7 +993,7 @@ inline void world::connection_event_activity()
                     if ( !c_.txq.empty() ) { c_.inflight = c_.txq.front(); c_.txq.pop_front(); }
                     else { c_.inflight = ll_pdu(); c_.inflight.llid = 1; }
                 }
-                const bool c_md = !c_.txq.empty() && packets < c_.md_burst;
+                const bool c_md = !c_.txq.empty() && ( packets < c_.md_burst || ( r_.real_front && c_.md_burst > 1 ) );
                 read_buffer buf = r_.buf_allocate_receive();
                 write_buffer trans{ nullptr, 0 };
                 const bool fits = buf.size >= 2 + c_.inflight.payload.size();
@@ -979,6 +1013,8 @@ inline void world::connection_event_activity()
                 {
                     res_.probe( "receive_buffer_full" );
                     ++rx_full_streak_;
+                    r_.front_rx_header[ 0 ] = static_cast< std::uint8_t >( c_.inflight.llid | ( c_.nesn ? 4 : 0 ) | ( c_.sn ? 8 : 0 ) | ( c_md ? 0x10 : 0 ) );
+                    r_.front_rx_header[ 1 ] = static_cast< std::uint8_t >( c_.inflight.payload.size() );
                     trans = r_.buf_next_transmit();
                 }
                 else
